@@ -258,10 +258,16 @@ func BuildTypeCtxByIndex(typeType *parser.TypeTypeContext, typeCtx *parser.Class
 }
 
 func (s *JavaFullListener) EnterLocalVariableDeclaration(ctx *parser.LocalVariableDeclarationContext) {
-	typ := ctx.GetChild(0).(antlr.ParseTree).GetText()
-	if ctx.GetChild(1) != nil {
-		if ctx.GetChild(1).GetChild(0) != nil && ctx.GetChild(1).GetChild(0).GetChild(0) != nil {
-			variableName := ctx.GetChild(1).GetChild(0).GetChild(0).(antlr.ParseTree).GetText()
+	// the declared type follows the modifiers (final, annotations): `final Foo x = ...`
+	typeIndex := len(ctx.AllVariableModifier())
+	if ctx.GetChildCount() <= typeIndex+1 {
+		return
+	}
+	typ := ctx.GetChild(typeIndex).(antlr.ParseTree).GetText()
+	declarators := ctx.GetChild(typeIndex + 1)
+	if declarators != nil {
+		if declarators.GetChild(0) != nil && declarators.GetChild(0).GetChild(0) != nil {
+			variableName := declarators.GetChild(0).GetChild(0).(antlr.ParseTree).GetText()
 			localVars[variableName] = typ
 		}
 	}
